@@ -607,6 +607,44 @@ pub fn plan(prop: &str, tier: &str) -> Option<Plan> {
                 bounds = json!({"classes": "for every n<=96: 5 orders x 3 initial capacities x 2 tombstone patterns x 5 splices x 5 hasher states; all ordered pairs per class, negatives"});
             }
         }
+        "C15" => {
+            let mk = |world: &str, ty: &str, hk: u8, n: usize, fam: usize, splits: usize, parts: usize, prof: &str, secs: f64| -> Vec<ShardSpec> {
+                (0..parts)
+                    .map(|p| {
+                        let mut x = e1(prop, ty, hk, 0, "", &["cursor"], n, 0, 0, prof, secs);
+                        x.engine = "e5".into();
+                        x.world = world.into();
+                        x.extra.insert("fam".into(), fam.to_string());
+                        x.extra.insert("splits".into(), splits.to_string());
+                        x.extra.insert("pools".into(), "16".into());
+                        x.extra.insert("part".into(), p.to_string());
+                        x.extra.insert("parts".into(), parts.to_string());
+                        x
+                    })
+                    .collect()
+            };
+            if q {
+                s.extend(mk("map", "u32", H_GOOD, 130, 160, 3, 4, "par", 45.0));
+                s.extend(mk("map", "u32", H_LOW, 64, 60, 3, 2, "par", 45.0));
+                s.extend(mk("map", "tk", H_GOOD, 40, 40, 3, 1, "par", 45.0));
+                s.extend(mk("set", "u32", H_GOOD, 40, 24, 3, 4, "par", 45.0));
+                s.extend(mk("set", "tk", H_LOW, 24, 12, 2, 1, "par", 45.0));
+                s.extend(mk("map", "u32", H_GOOD, 130, 60, 0, 2, "parreal", 45.0));
+                s.extend(mk("set", "u32", H_GOOD, 33, 8, 0, 2, "parreal", 45.0));
+                bounds = json!({"E5": "rayon stand-in: every script with <=3 splits and every fork order, for 12 parallel map calls at every state of a family of <=160 states (growth path to N=130 + post-deviation states; old tables of 1-8 groups), and 13 parallel set calls on every ordered pair of <=24 set states x 3 key-overlap patterns", "conformance": "the same bodies on the real rayon, thread pools of 1..16 threads (sampled; not the deciding step)"});
+            } else {
+                for &hk in &HS4 {
+                    s.extend(mk("map", "u32", hk, 130, 400, 5, 4, "par", 1500.0));
+                }
+                s.extend(mk("map", "tk", H_GOOD, 64, 120, 4, 2, "par", 1500.0));
+                s.extend(mk("set", "u32", H_GOOD, 64, 60, 4, 8, "par", 1500.0));
+                s.extend(mk("set", "u32", H_LOW, 40, 40, 3, 4, "par", 1500.0));
+                s.extend(mk("set", "tk", H_GOOD, 33, 24, 3, 2, "par", 1500.0));
+                s.extend(mk("map", "u32", H_GOOD, 130, 300, 0, 4, "parreal", 1500.0));
+                s.extend(mk("set", "u32", H_GOOD, 40, 20, 0, 4, "parreal", 1500.0));
+                bounds = json!({"E5": "every script with <=5 splits (maps) / <=4 (sets) and every fork order; families of <=400 map states (4 hashers) and <=60 set states (all ordered pairs x 3 overlap patterns)", "conformance": "real rayon, pools of 1..16 threads"});
+            }
+        }
         "C16" => {
             let single = |world: &str, ty: &str, hk: u8, n: usize, secs: f64| {
                 let mut x = e1(prop, ty, hk, 0, "", &["cursor"], n, 0, 0, "chk", secs);
@@ -723,6 +761,12 @@ pub fn check(prop: &str, tier: &str, t0: Instant) -> i32 {
     let ends = run_jobs(p.shards, par(), &format!("{}-{}", prop, tier));
     let mut rep = collect(prop, tier, p.level, ends);
     let mut extra = json!({"bounds": p.bounds});
+    if prop == "C15" {
+        let real: u64 = rep.results.iter().filter(|r| r.spec.profile == "parreal").map(|r| r.executions).sum();
+        let shim: u64 = rep.results.iter().filter(|r| r.spec.profile == "par").map(|r| r.executions).sum();
+        extra["scripted_schedules_explored"] = json!(shim);
+        extra["real_rayon_runs_agreeing"] = json!(real);
+    }
     if prop == "C17" {
         let d = differential(&mut rep, tier);
         extra["profile_pairs_compared"] = json!(d.0);
